@@ -18,6 +18,7 @@ class Pipeline(hg.Pipeline):
     def __init__(self, ctx, name="grpc"):
         super().__init__(ctx, name)
         fake = ctx.gobuild("cmd/fakeprotoc")
+        self.mkgrpcrunner = ctx.gobuild("cmd/mkgrpcrunner")
         self.protobin = os.path.join(self.root, "protoc-bin")
         os.makedirs(self.protobin, exist_ok=True)
         shutil.copy(fake, os.path.join(self.protobin, "protoc"))
@@ -50,11 +51,25 @@ class Pipeline(hg.Pipeline):
                 shutil.rmtree(os.path.join(self.root, n), ignore_errors=True)
         self.events, self.failed, self.verdicts, self.first_verdicts = {}, {}, {}, {}
 
-    def _glue_one(self, i, services):
-        d = os.path.join(self.root, "d%d" % i)
-        p = subprocess.run([self.ctx.gobuild("cmd/mkgrpcrunner"), "-dir", d, "-services", ",".join(services)], cwd=self.root,
-                           env=self.ctx.goenv(), stdout=subprocess.PIPE, stderr=subprocess.PIPE, text=True, timeout=300)
-        return i, p.returncode, p.stderr[-3000:]
+    def build_runners(self, designs, race=False):
+        """One glue program and one binary for all designs that generated and compiled (linking the gRPC
+        libraries once instead of once per design). Returns {design index: binary path}."""
+        todo = [i for i in range(len(designs)) if i not in self.failed]
+        if not todo:
+            return {}
+        spec = ",".join("d%d=%s" % (i, "+".join(s["name"] for s in designs[i]["services"])) for i in todo)
+        p = subprocess.run([self.mkgrpcrunner, "-root", self.root, "-designs", spec], cwd=self.root, env=self.ctx.goenv(),
+                           stdout=subprocess.PIPE, stderr=subprocess.PIPE, text=True, timeout=900)
+        if p.returncode != 0:
+            raise core.Infra("mkgrpcrunner failed (%d): %s" % (p.returncode, p.stderr[-3000:]))
+        bindir = os.path.join(self.root, "bin")
+        os.makedirs(bindir, exist_ok=True)
+        out = os.path.join(bindir, "grpcrunner")
+        p = subprocess.run(["go", "build"] + (["-race"] if race else []) + ["-o", out, "./runner"], cwd=self.root, env=self.ctx.goenv(),
+                           stdout=subprocess.PIPE, stderr=subprocess.STDOUT, text=True, timeout=1800)
+        if p.returncode != 0:
+            raise core.Infra("building the gRPC runner failed: %s" % p.stdout[-3000:])
+        return {i: out for i in todo}
 
     @staticmethod
     def _read_verdicts(d):
@@ -228,6 +243,7 @@ def concrete(a, v, mname):
 
 
 def scenario_for(v, sid, svc, gometh, mname):
+    """svc is the runner's name of the service: <design dir>/<service name>."""
     payload = {"a0": "abc"}
     c = concrete(v["pa"], v["pv"], mname)
     if c is not None:
@@ -286,7 +302,9 @@ VALIDATION_NAMES = {"missing_field", "invalid_range", "invalid_length", "invalid
 
 
 def unalt(x, mname):
-    """Union dumps carry Go type names: reduce them to the member letter."""
+    """Union dumps carry Go type names: reduce them to the member letter. Unset struct fields (null) are dropped."""
+    if isinstance(x, dict) and "$union" not in x and "$map" not in x and "$bytes" not in x:
+        x = {k: y for k, y in x.items() if y is not None}
     if isinstance(x, dict):
         if "$union" in x:
             n = x["$union"].lower().replace("_", "")
@@ -358,10 +376,7 @@ def project(v, events, mname):
             e = c["err"]
             o["cerr_name"] = e.get("name")
             o["cerr_msg"] = (e.get("message") or "")[:200]
-            if sr:
-                o["cerr"] = "remote"
-            elif e.get("name") in VALIDATION_NAMES:
-                o["cerr"] = "validation"
-            else:
-                o["cerr"] = "clienterror"
+            # the generated client endpoint wraps every error into goa.Fault: a refusal by the client-side decoder is
+            # recognised by where it happens (the server had answered successfully), not by its name
+            o["cerr"] = "remote" if sr or not se else "validation"
     return o
